@@ -847,7 +847,17 @@ func drvRegistry(c *ctx) error {
 					if c.rnd.Intn(6) == 0 { // sizes up to what FOpts can carry, just beyond, and around the one-byte boundary
 						size = c.pick(6, 7, 8, 13, 14, 15, 16, 255, 256, 257, 1<<30, 1<<30)
 					}
-					h = append(h, M{"dir": []string{"down", "up"}[c.rnd.Intn(2)], "cid": cid, "size": size})
+					op := M{"dir": []string{"down", "up"}[c.rnd.Intn(2)], "cid": cid, "size": size}
+					if j > 0 && c.rnd.Intn(3) == 0 {
+						// the same (direction, CID) as an earlier step of this history: re-registration with another size, a
+						// refused re-registration (size -1), removal and removal again
+						prev := h[c.rnd.Intn(j)].(M)
+						op["dir"], op["cid"] = prev["dir"], prev["cid"]
+						if c.rnd.Intn(3) == 0 {
+							op["size"] = c.pick(-1, -1, 0)
+						}
+					}
+					h = append(h, op)
 				}
 				hists = append(hists, M{"hist": h})
 			}
